@@ -210,6 +210,10 @@ def run_target(us, t, workdir, tier, log):
         for be in backends:
             cmd = cbmc_cmd(t, gb, be)
             rc, out, secs = run(cmd, timeout)
+            if 'too many addressed objects' in out and not t.object_bits:
+                t.object_bits = 12            # more than 256 objects (many contracts/temporaries): widen the object id field
+                cmd = cbmc_cmd(t, gb, be)
+                rc, out, secs = run(cmd, timeout)
             outs.append(out)
             if 'ignoring' in out and 'forall' in out:
                 raise Undecided('%s/%s: back end ignored a quantifier' % (us.name, t.id))
